@@ -8,6 +8,7 @@ use sodg::Sodg;
 /// Run a history step by step; returns the findings of the last step (for a
 /// transition failure) or of the probes on the final state.
 pub fn rerun_hx(cfg: &HxCfg, history: &[Op], at: &str, aux: Option<&Vec<Op>>) -> Result<Vec<Finding>, String> {
+    hx::set_observe_flags(cfg);
     crate::with_n!(cfg.n, N, {
         // differential oracles: the other history registers its result first
         if let Some(a) = aux {
